@@ -6,6 +6,7 @@ import ast
 from ..source import norm, const_value, walk_no_nested, AnalysisError
 from .common import is_name, params, returns_of, calls_in, stores_in, flatten_targets, root_name
 from .keydomain import reader_kinds
+from . import subdomain_folds as sf
 
 EXPLANATION = (
     "Static rules on spatial/subdomain.py (both functions, by sibling agreement): (R1) key domain: every literal group key "
@@ -22,175 +23,17 @@ TRUSTED = ("CPython ast", "Array comparison semantics as established by C07", "D
 FUNCS = ["spatial/subdomain.py::extract_sphere", "spatial/subdomain.py::extract_box"]
 
 
-def main_loop(fi):
-    loops = [n for n in fi.node.body if isinstance(n, ast.For)]
-    if len(loops) != 1:
-        raise AnalysisError("%s: expected one loop over the groups" % fi.qual)
-    return loops[0]
-
-
-def r1_key_domain(run, tree):
-    run.rule("C16.R1", "group keys exist (key domain); mesh fallback lazy and only for groups without positions",
-             "key-domain propagation + path rule", "", floor=4)
+def r1_fold(run, tree):
+    run.rule("C16.R1", "extract_sphere / extract_box folded over scenario datasets: which groups are returned, which mask selects their rows "
+             "(as polynomial atoms), row alignment of all members, own positions before mesh positions, lazy mesh fallback, input untouched, "
+             "metadata copied", "D7 fold of both functions through the repository's Dataset/Datagroup/Vector classes + D1 on the mask",
+             "the mesh group is named after the kind of the AMR reader (key-domain propagation)", floor=8)
     readers, kinds = reader_kinds(tree)
-    domain = set(kinds.values())
-    run.extra["group_key_domain"] = sorted(domain)
-    for q in FUNCS:
-        fi = tree.func(q)
-        run.analysed(fi)
-        DATASET = params(fi)[0]
-        lp = main_loop(fi)
-        gname = lp.target.elts[1].id if isinstance(lp.target, ast.Tuple) else None
-        dataset_exprs = {DATASET, "%s.parent" % gname}
-        n_keys = 0
-        for n in walk_no_nested(fi.node):
-            if isinstance(n, ast.Subscript) and isinstance(const_value(n.slice), str) and norm(n.value) in dataset_exprs:
-                key = const_value(n.slice)
-                n_keys += 1
-                run.ob("%s::group-key[%s]" % (q, key), key in domain, fi.where(n),
-                       "%s[%r]: the loader produces the groups %s" % (norm(n.value), key, sorted(domain)),
-                       "every dataset produced by load(): KeyError(%r)" % key)
-        # how pos is obtained
-        pos_assign = [s for s in walk_no_nested(lp) if isinstance(s, ast.Assign) and is_name(s.targets[0], "pos")]
-        own_first, lazy = False, False
-        fallback_key = None
-        for s in lp.body:
-            if isinstance(s, ast.Assign) and is_name(s.targets[0], "pos") and isinstance(s.value, ast.Call) and \
-                    norm(s.value.func) == "%s.get" % gname and const_value(s.value.args[0]) == "position":
-                own_first = True
-                default = s.value.args[1] if len(s.value.args) > 1 else None
-                if default is not None and not (isinstance(default, ast.Constant) and default.value is None):
-                    # eager default: evaluated even for groups that have positions
-                    run.violated("%s::eager-fallback" % q, fi.where(s),
-                                 "the fallback `%s` is evaluated eagerly as the default of .get()" % norm(default),
-                                 "a dataset without that group raises although every group has its own positions")
-            if isinstance(s, ast.If) and norm(s.test) in ("pos is None",):
-                for t in s.body:
-                    if isinstance(t, ast.Assign) and is_name(t.targets[0], "pos"):
-                        lazy = True
-        run.ob("%s::own-position-first" % q, own_first, fi.where(lp),
-               "a group's own 'position' member is looked up first: %s" % own_first,
-               "a group with its own positions (particles, sinks) that has as many rows as the mesh is filtered with the "
-               "mesh positions")
-        run.ob("%s::lazy-mesh-fallback" % q, lazy or not any("parent" in norm(s) for s in pos_assign), fi.where(lp),
-               "mesh positions are used only under `pos is None`: %s" % lazy,
-               "groups with positions depend on the presence of a mesh group")
-        # pos must not be re-bound to the mesh position on any other path
-        others = [s for s in pos_assign if not (isinstance(s.value, ast.Call) and norm(s.value.func) == "%s.get" % gname)]
-        guarded = all(any(isinstance(p, ast.If) and norm(p.test) == "pos is None" and s in list(ast.walk(p)) for p in lp.body)
-                      for s in others)
-        run.ob("%s::fallback-only-when-missing" % q, guarded, fi.where(lp), "%d other assignments of pos, all under `pos is None`: %s" % (
-            len(others), guarded), "the mesh positions take priority over the group's own")
-
-
-def r2_predicates(run, tree):
-    run.rule("C16.R2", "membership predicates", "sibling agreement + table", "", floor=4)
-    fi = tree.func(FUNCS[0])
-    run.analysed(fi)
-    pn = params(fi)  # dataset, radius, origin
-    lp = main_loop(fi)
-    txt = {norm(s) for s in walk_no_nested(lp) if isinstance(s, ast.stmt)}
-    r_ok = "r = (pos - %s).norm" % pn[2] in txt
-    c_ok = "c = (r < %s).values" % pn[1] in txt
-    run.ob(FUNCS[0] + "::distance", r_ok, fi.where(lp), "r = |pos - origin|: %s" % r_ok, "distance measured from another point")
-    run.ob(FUNCS[0] + "::inside", c_ok, fi.where(lp), "inside <=> r < radius (strict, unit-aware): %s" % c_ok,
-           "rows exactly on the sphere are included, or raw numbers in different units are compared")
-    fi = tree.func(FUNCS[1])
-    run.analysed(fi)
-    pn = params(fi)  # dataset, dx, dy, dz, origin
-    lp = main_loop(fi)
-    txt = {norm(s) for s in walk_no_nested(lp) if isinstance(s, ast.stmt)}
-    cen_ok = "centered_pos = pos - %s" % pn[4] in txt
-    run.ob(FUNCS[1] + "::centred", cen_ok, fi.where(lp), "centred = pos - origin: %s" % cen_ok, "box centred elsewhere")
-    pairs = {}
-    for s in walk_no_nested(lp):
-        if isinstance(s, ast.Assign) and isinstance(s.targets[0], ast.Name) and isinstance(s.value, ast.BinOp) and \
-                isinstance(s.value.op, ast.BitAnd):
-            pairs[s.targets[0].id] = s.value
-    for axis, size in zip("xyz", pn[1:4]):
-        found = None
-        for name, be in pairs.items():
-            sides = [norm(be.left), norm(be.right)]
-            up = ["centered_pos.%s <= %s * 0.5" % (axis, size), "centered_pos.%s <= 0.5 * %s" % (axis, size),
-                  "centered_pos.%s <= %s / 2" % (axis, size)]
-            lo = ["centered_pos.%s >= -%s * 0.5" % (axis, size), "centered_pos.%s >= -0.5 * %s" % (axis, size),
-                  "centered_pos.%s >= -%s / 2" % (axis, size), "centered_pos.%s >= -(%s * 0.5)" % (axis, size)]
-            if any(u in sides for u in up) and any(l in sides for l in lo):
-                found = name
-        run.ob("%s::axis[%s]" % (FUNCS[1], axis), found is not None, fi.where(lp),
-               "axis %s: -%s/2 <= offset <= %s/2 %s" % (axis, size, size, "as %s" % found if found else "NOT found"),
-               "the %s extent of the box is tested against another size or axis, or one side is open" % axis)
-        pairs.pop(found, None) if found else None
-    comb = [norm(s.value) for s in walk_no_nested(lp) if isinstance(s, ast.Assign) and is_name(s.targets[0], "c")]
-    ok = any(c.replace(" ", "") in ("(cx&cy&cz).values",) for c in comb)
-    run.ob(FUNCS[1] + "::all-axes-anded", ok, fi.where(lp), "c = %s" % comb, "a row inside on two axes only is returned")
-
-
-def r3_r4_group_mask_and_input(run, tree):
-    run.rule("C16.R3", "one mask applied to the whole group behind the guards; input untouched; metadata copied", "path + effect rule",
-             "", floor=8)
-    for q in FUNCS:
-        fi = tree.func(q)
-        pn = params(fi)
-        DATASET = pn[0]
-        lp = main_loop(fi)
-        gname = lp.target.elts[1].id if isinstance(lp.target, ast.Tuple) else None
-        kname = lp.target.elts[0].id if isinstance(lp.target, ast.Tuple) else None
-        run.ob(q + "::iterates-all-groups", norm(lp.iter) == "%s.items()" % DATASET, fi.where(lp), "loop over %s" % norm(lp.iter),
-               "a group is never considered")
-        # shape guard precedes the mask
-        guard_idx = next((i for i, s in enumerate(lp.body) if isinstance(s, ast.If) and norm(s.test) == "pos.shape != %s.shape" % gname
-                          and any(isinstance(x, ast.Continue) for x in s.body)), None)
-        store = None
-        for i, s in enumerate(lp.body):
-            if isinstance(s, ast.If) and norm(s.test) in ("np.any(c)", "c.any()"):
-                for t in s.body:
-                    if isinstance(t, ast.Assign) and isinstance(t.targets[0], ast.Subscript) and norm(t.targets[0].value) == "subdomain":
-                        store = (i, t)
-            elif isinstance(s, ast.Assign) and isinstance(s.targets[0], ast.Subscript) and norm(s.targets[0].value) == "subdomain":
-                store = (i, s)
-                run.violated(q + "::any-row-guard", fi.where(s), "a group is inserted without the `np.any(c)` guard",
-                             "groups with no row inside are returned as empty groups instead of being omitted")
-        stores_other = []
-        for n in walk_no_nested(lp):
-            if isinstance(n, ast.Assign) and isinstance(n.targets[0], ast.Subscript) and norm(n.targets[0].value) == "subdomain":
-                if store is None or n is not store[1]:
-                    stores_other.append(n)
-        run.ob(q + "::shape-guard-before-mask", guard_idx is not None and store is not None and guard_idx < store[0], fi.where(lp),
-               "shape guard %s" % ("precedes the insertion" if guard_idx is not None else "missing"),
-               "a group without positions and with another length is masked with the mesh mask (IndexError / wrong rows)")
-        if store is None:
-            run.violated(q + "::insertion", fi.where(lp), "no `subdomain[name] = ...` under the any-row guard", "nothing is returned")
-            continue
-        t = store[1]
-        val = t.value
-        ok_val = isinstance(val, ast.Subscript) and is_name(val.slice, "c") and norm(val.value) in ("%s[%s]" % (DATASET, kname), gname)
-        run.ob(q + "::whole-group-masked", ok_val and norm(t.targets[0].slice) == kname and not stores_other, fi.where(t),
-               "inserted value: %s under key %s%s" % (norm(val), norm(t.targets[0].slice), "; other insertions: %d" % len(stores_other) if stores_other else ""),
-               "the input group object itself (or a differently indexed group) is placed in the result: the input is "
-               "re-parented / shares its members, or rows do not correspond")
-        # no store through the dataset
-        bad = []
-        for tgt, st in stores_in(fi.node):
-            for x in flatten_targets(tgt):
-                if isinstance(x, (ast.Attribute, ast.Subscript)) and root_name(x) in (DATASET, gname, "pos"):
-                    bad.append(st)
-        for n in walk_no_nested(fi.node):
-            if isinstance(n, ast.Call) and isinstance(n.func, ast.Attribute) and root_name(n.func.value) in (DATASET, gname) and \
-                    n.func.attr in ("update", "pop", "clear", "sortby", "__setitem__", "__delitem__", "setdefault"):
-                bad.append(n)
-            if isinstance(n, ast.AugAssign) and root_name(n.target) in (DATASET, gname, "pos", pn[-1]):
-                bad.append(n)
-        run.ob(q + "::input-not-written", not bad, fi.where(bad[0]) if bad else fi.where(),
-               "stores through the input: %s" % ([norm(b)[:50] for b in bad] or "none"), "the input dataset is modified")
-        meta = [s for s in fi.node.body if isinstance(s, ast.Assign) and norm(s.targets[0]) == "subdomain.meta"]
-        ok_meta = len(meta) == 1 and norm(meta[0].value) in ("%s.meta.copy()" % DATASET, "dict(%s.meta)" % DATASET)
-        run.ob(q + "::meta-copied", ok_meta, fi.where(meta[0]) if meta else fi.where(), "subdomain.meta = %s" % (
-            norm(meta[0].value) if meta else "?"), "metadata missing from the result, or shared with the input")
-        fresh = any(isinstance(s, ast.Assign) and is_name(s.targets[0], "subdomain") and norm(s.value) == "Dataset()" for s in fi.node.body)
-        rets = returns_of(fi.node)
-        run.ob(q + "::returns-new-dataset", fresh and len(rets) == 1 and is_name(rets[0].value, "subdomain"), fi.where(),
-               "result is a new Dataset(): %s" % fresh, "the input dataset is returned", nontrivial=False)
+    run.extra["group_key_domain"] = sorted(set(kinds.values()))
+    mesh_names = [kinds[k] for k, cls in readers.items() if getattr(cls, "name", "") == "AmrReader"]
+    if len(mesh_names) != 1:
+        raise AnalysisError("cannot identify the group name produced by the AMR reader: %s" % kinds)
+    sf.check_extract(run, tree, mesh_names[0])
 
 
 def r_conversion(run, tree):
@@ -206,4 +49,4 @@ def r_parent_links(run, tree):
     cf.check_dataset_histories(run, tree)
 
 
-RULES = [r_conversion, r_parent_links, r1_key_domain, r2_predicates, r3_r4_group_mask_and_input]
+RULES = [r1_fold, r_conversion, r_parent_links]
